@@ -134,4 +134,13 @@ def cond_written_file_is_canonical(i: int) -> bool:
     post: _
     """
     from xhair import c08_roundtrip as R
-    return R.cond_overwrite_equal_but_different(i) and R.cond_overwrite_longer_by_shorter('a', i)
+    # (helpers without contracts: CrossHair replaces calls to contracted functions by their postcondition)
+    return R._overwrite_equal_but_different(i) and R._overwrite_longer_by_shorter('a', i)
+
+
+def cond_fixed_keys_in_list_sorted(a: int, b: int) -> bool:
+    """
+    post: _
+    """
+    v = [{'b': a, 'a': b}, {'k': [{'z': a, 'y': [b], 'x': None}]}]
+    return canonserialize(v) == ref_canon(v) and canonserialize({'o': ({'d': a, 'c': b},)}) == ref_canon({'o': [{'d': a, 'c': b}]})
